@@ -51,7 +51,32 @@ def gen(seed, n, out):
                 c = _gen.latin1ify(rng, c)
             if c is not None:
                 cases.append({"kind": k, "case": c})
+    # deep descriptions (always): a dead-end chain of 700 units needs recursion headroom only if the code recurses
+    import gen as _gen
+    cases.append({"kind": "loader", "case": {"desc": _gen.deep_dead_chain(700), "kind": "deep-dead-chain-oracle", "oracle_n": 700,
+                                             "oracle": "dead"}})
+    cases.append({"kind": "loader", "case": {"desc": _gen.plain_deep_chain(700), "kind": "deep-chain-oracle", "oracle_n": 700}})
     json.dump(cases, open(out, "w"))
+
+
+def other_ambient(fn, depth=400):
+    """runs fn() where every hidden input a pure function must ignore is different: 400 frames deeper in the
+    stack, another working directory, other locale / time-zone variables, logging switched on (silently)"""
+    import implrun
+    old_cwd, old_env = os.getcwd(), dict(os.environ)
+
+    def down(k):
+        return fn() if k == 0 else down(k - 1)
+    try:
+        os.chdir("/")
+        os.environ.update({"LANG": "tr_TR.UTF-8", "LC_ALL": "tr_TR.UTF-8", "TZ": "Pacific/Kiritimati", "COLUMNS": "20",
+                           "PYTHONIOENCODING": "ascii"})
+        with implrun.chatty_logging(0):
+            return down(depth)
+    finally:
+        os.chdir(old_cwd)
+        os.environ.clear()
+        os.environ.update(old_env)
 
 
 def run_one(kind, case):
@@ -189,7 +214,7 @@ def run(cases_file, out):
         # unrelated work: some other case of the batch
         o = cases[rng.randrange(len(cases))]
         run_one(o["kind"], o["case"])
-        r2, m2 = run_one(c["kind"], c["case"])
+        r2, m2 = other_ambient(lambda: run_one(c["kind"], c["case"]))
         # same argument object, edited in place into another case of the same kind
         same = [x for x in cases if x["kind"] == c["kind"]]
         other = same[rng.randrange(len(same))]
